@@ -284,6 +284,10 @@ func (s *server) handle(w http.ResponseWriter, r *http.Request) {
 				entry["actions"] = map[string]any{op: map[string]any{"href": href, "expires_in": 3600}}
 			case how == "expired":
 				entry["actions"] = map[string]any{op: map[string]any{"href": href, "expires_at": time.Now().Add(-time.Hour).UTC().Format(time.RFC3339)}}
+			case how == "expired-in": // relative expiry that has already passed (expires_in may be negative per the API schema)
+				entry["actions"] = map[string]any{op: map[string]any{"href": href, "expires_in": -10}}
+			case how == "expired-in-future-at": // the relative expiry has passed although expires_at lies in the future
+				entry["actions"] = map[string]any{op: map[string]any{"href": href, "expires_in": -3600, "expires_at": time.Now().Add(time.Hour).UTC().Format(time.RFC3339)}}
 			case how == "soon":
 				entry["actions"] = map[string]any{op: map[string]any{"href": href, "expires_in": 3}}
 			case how == "noaction":
